@@ -16,3 +16,14 @@ var ConventionalTexts = []string{
 	"B", "kB", "KiB", "0B", "0 B", "unlimited", "infinite", "-1B", "max", "1e3", "0x10", "0b1", "0o7", "1_000", "1,000", "1.0",
 	"I", "i", "M", "m", "O", "o", "nulla", "NULLA", "IIII", "MMMM",
 }
+
+// Wrapped returns each of the given texts inside the wrappers and next to the neighbours that transports put around values
+// (quotes, brackets, white space, a terminator, a second copy). Whether such a text is valid is for each check's oracle to say.
+func Wrapped(valid ...string) []string {
+	var out []string
+	for _, v := range valid {
+		out = append(out, `"`+v+`"`, "'"+v+"'", "`"+v+"`", "<"+v+">", "("+v+")", "["+v+"]", "{"+v+"}", " "+v, v+" ", "\t"+v, v+"\n", v+"\r\n", "\n"+v, v+"\x00", "\x00"+v,
+			v+v, v+","+v, v+" "+v, v+";", "="+v, v+"=", `\"`+v+`\"`, "\ufeff"+v, v+"\ufeff", "%22"+v+"%22", "&quot;"+v+"&quot;")
+	}
+	return out
+}
